@@ -579,10 +579,34 @@ def r4_size_column(rep, src):
                          'sizes (a lexicographic or numeric maximum of the sizes gives a too narrow column)' % ks, where=f.where)
         else:
             got = {}
-            for cond, k, st, conds in results:
-                for md in modes:
-                    if any(pol and norm(t).replace('"', "'") in ("self.size_field_behavior == '%s'" % md, "'%s' == self.size_field_behavior" % md) for t, pol in conds):
-                        got[md] = k
+
+            def lit_truth(t, md):
+                """truth of a path literal when self.size_field_behavior is md (None: does not depend on it alone)"""
+                if isinstance(t, ast.Compare) and len(t.ops) == 1:
+                    l, r, op = t.left, t.comparators[0], t.ops[0]
+                    if norm(r) == 'self.size_field_behavior' and isinstance(op, (ast.Eq, ast.NotEq)):
+                        l, r = r, l
+                    if norm(l) == 'self.size_field_behavior':
+                        cv_ = folder.value(r)
+                        if cv_ is not None:
+                            if isinstance(op, (ast.Eq, ast.NotEq)):
+                                return (cv_[1] == md) == isinstance(op, ast.Eq)
+                            if isinstance(op, (ast.In, ast.NotIn)) and isinstance(cv_[1], (tuple, list, set, frozenset)):
+                                return (md in cv_[1]) == isinstance(op, ast.In)
+                return None
+            for md in modes:
+                ks_ = set()
+                for cond, k, st, conds in results:
+                    if all(lit_truth(t, md) in (None, pol) for t, pol in conds) and any(lit_truth(t, md) is not None for t, pol in conds):
+                        ks_.add(k if not isinstance(k, list) else tuple(k))
+                raising = [p_ for p_ in P0.function_paths(f.node, folder) if p_.outcome[0] == 'raise'
+                           and all(lit_truth(t, md) in (None, pol) for t, pol in p_.conds)]
+                if len(ks_) == 1 and not raising:
+                    got[md] = ks_.pop()
+                elif raising:
+                    got[md] = 'raises'
+                elif ks_:
+                    got[md] = sorted(map(repr, ks_))
             if got.get('apt-ftparchive') == ('CONST', 16):
                 rep.ok('C12.R4', f.site, 'apt-ftparchive width', '16')
             else:
